@@ -13,7 +13,14 @@ From RX.Proofs Require Import StrictModel StrictStream StrictTok StrictBuilder
 Open Scope N_scope.
 
 Tactic Notation "dsh" "as" simple_intropattern(p) :=
-  match goal with |- bind ?a _ = bind ?a _ => destruct a as p; cbn [bind]; try reflexivity end.
+  match goal with |- bind ?a _ = bind ?a _ =>
+    destruct a as p; cbn [bind];
+    try solve [match goal with
+               | |- Err _ = _ => reflexivity
+               | |- Panic _ = _ => reflexivity
+               | |- OutOfFuel = _ => reflexivity
+               end]
+  end.
 
 Section WithText.
 Variable text : bytes.
@@ -63,6 +70,7 @@ Proof.
       apply push_char_bytes_attr_valid in Epush; auto; [|eapply PV_valid; eauto; apply Hsi].
       destruct Epush as [Hv1 Hp1].
       apply IH; auto; [apply H1|]. apply PV_of_valid; auto. apply H1.
+    + reflexivity.
   - destruct ((x =? 60) && (0 <? ld_depth ld)); [reflexivity|].
     destruct (advance1_SInv0 text s Hs Hlt) as (s1 & -> & Hs1 & Hp1 & He1). cbn [bind].
     destruct (PV_byte_attr text Hvalid t (s_pos s) x r (curr_byte_opt s1) Ht Hp Hbyte) as [Ht1 Hpc1].
@@ -213,19 +221,23 @@ Proof.
   induction lvl as [|lvl IH]; intros s c Hs Hc; [reflexivity|].
   cbn [parse_content_lvl_ss parse_content_lvl].
   apply (parse_content_rel text Hvalid context _ _ Iout Iin); auto.
-  - intros tok c0 Hok Hst. apply token_with_ss_eq; auto; [eapply St_Core; eauto|].
-    intros t r Ht. apply process_text_with_s_eq; auto.
-    + apply parse_content_lvl_safe; auto.
-    + eapply St_Core; eauto.
+  - intros tok c0 Hok Hst.
+    apply (token_with_ss_eq (process_text_with_s text (parse_content_lvl_ss text lvl))
+             (process_text_with text (parse_content_lvl text lvl)) tok c0 Hok (St_Core tok c0 Hst)).
+    intros t r Ht.
+    apply (process_text_with_s_eq _ _ t r c0 (parse_content_lvl_safe text Hvalid lvl) IH Ht
+             (St_Core tok c0 Hst)).
   - apply model_callback_ok.
 Qed.
 
 Lemma token_ss_eq tok c : TokOk2 text tok -> Core c -> token_ss text tok c = token text tok c.
 Proof.
   intros Hok Hc. unfold token_ss, token, process_text_ss, process_text.
-  apply token_with_ss_eq; auto. intros t r Ht. apply process_text_with_s_eq; auto.
-  - apply parse_content_lvl_safe; auto.
-  - apply parse_content_lvl_ss_eq.
+  apply (token_with_ss_eq (process_text_with_s text (parse_content_lvl_ss text entity_levels))
+           (process_text_with text (parse_content_lvl text entity_levels)) tok c Hok Hc).
+  intros t r Ht.
+  apply (process_text_with_s_eq _ _ t r c (parse_content_lvl_safe text Hvalid entity_levels)
+           (parse_content_lvl_ss_eq entity_levels) Ht Hc).
 Qed.
 
 Lemma parse_document_strict_eq dtd c : Core c ->
